@@ -763,6 +763,7 @@ func runC07(w *World, r *Report) {
 
 	shareRule(w, r, "C07.keyed-helper-sides", "the helper of a node with an output key replaces the output-side slots (converter, pair, zero value) by the map's: a pass-through typed from it checks interface-typed edges against map[string]any, not against the inner output type", 4, "C04", "C04.in-out-wiring")
 	shareRule(w, r, "C07.keyed-stream-mismatch-is-an-error", "the stream half of WithInputKey skips a chunk only when the key is missing: a value of the wrong type under the key is the same ordinary type error Invoke reports, not a silently shorter input", 1, "C04", "C04.key-filter-miss-only")
+	shareRule(w, r, "C07.checkers-check-their-own-mapping", "the run-time checker built for one mapping of an edge checks against that mapping's own target type: the literal captures per-iteration copies, not variables declared outside the loop", 1, "C15", "C15.checker-capture")
 
 	r.Rule("C07.inference-through-side-accessors", "every place where the graph infers the type of a pass-through node (a store to a node's runnable input type through g.nodes) stands under 'the type seen from the side the inference comes through is still unknown', asked of the side accessor (getNodeInputType / getNodeOutputType, graphNode.inputType / outputType) — which answers map[string]any for a keyed side — never of the raw field: the keyed side of a node is not the value that goes through it", 2)
 	{
@@ -884,6 +885,23 @@ func runC07(w *World, r *Report) {
 		}
 		if n < 3 {
 			r.Deferred = append(r.Deferred, fmt.Sprintf("C07.nested-table-initialised-on-its-own-absence: only %d guarded nested-table initialisations found in package compose", n))
+		}
+	}
+	r.Rule("C07.boundary-helpers-are-sided", "what getNodeGenericHelper answers for START and END is the graph's helper turned to the side a neighbour sees (forPredecessorPassthrough / forSuccessorPassthrough), never the helper as it is: a pass-through node typed from START takes its converters from that answer, and the graph's own output side belongs to another type whenever I != O", 1)
+	{
+		gh := w.Fn("compose", "graph.getNodeGenericHelper")
+		k := 0
+		instrs(gh, func(in ssa.Instruction) {
+			ret, ok := in.(*ssa.Return)
+			if !ok || len(ret.Results) != 1 {
+				return
+			}
+			k++
+			lf, _ := loadedField(ret.Results[0])
+			r.Check(lf == nil, "C07.boundary-helpers-are-sided", fmt.Sprintf("getNodeGenericHelper: return #%d", k), ret.Pos(), "the result of a call (a sided copy, or the node's own helper)", "the graph's helper is handed out as it is: in Graph[string,int] with START -> P(pass-through) -> A(string->int) and an interface-typed edge X -> P, a string from X is refused 'expected type: int, actual type: string' and an int passes the check and makes A panic 'unexpected input type' — in a graph that compiled")
+		})
+		if k == 0 {
+			undecidedf("C07.boundary-helpers-are-sided: no return in getNodeGenericHelper")
 		}
 	}
 	r.Rule("C07.getters-pure", "no get… / is… / input… / output… method of the builder types (graph, graphNode, composableRunnable, genericHelper, Chain, Workflow) stores into its receiver: what they answer follows later type inference", 5)
